@@ -7,6 +7,7 @@ import (
 	"context"
 	"encoding/json"
 	"fmt"
+	"io"
 	"io/ioutil"
 	"net/http"
 	"net/http/httptest"
@@ -15,6 +16,7 @@ import (
 	"strconv"
 	"strings"
 	"sync"
+	"testing/iotest"
 	"time"
 
 	restful "github.com/emicklei/go-restful/v3"
@@ -114,7 +116,7 @@ func genActions(r *Rng, n int, panicPct int) []Action {
 			if r.Pct(panicPct) {
 				// (third field: where the panic starts - in the script itself, or inside Request.ReadEntity of a plain /
 				// gzip-encoded body; scripts without a *Request just panic)
-				out = append(out, Action{5, r.Pick([]string{"boom", "bang", "boom", abortText}), r.Pick([]string{"", "", "", "entity", "entity-gzip"})})
+				out = append(out, Action{5, r.Pick([]string{"boom", "bang", "boom", abortText}), r.Pick([]string{"", "", "", "entity", "entity-gzip", "handle-dup"})})
 			}
 		}
 	}
@@ -258,7 +260,7 @@ func genDisp(r *Rng) Sx {
 			q.Method = routes[r.Intn(len(routes))].spec.Method
 		}
 		if r.Pct(70) {
-			q.Set("Accept-Encoding", r.Pick([]string{"gzip", "deflate", "gzip, deflate", "deflate, gzip", "xgzipx", "GZIP", "gzip;q=0", "identity", "br"}))
+			q.Set("Accept-Encoding", r.Pick([]string{"gzip", "deflate", "gzip, deflate", "deflate, gzip", "xgzipx", "GZIP", "gzip;q=0", "identity", "br", "x-gzip", "x-gzip, gzip", "x-deflate;q=0.5"}))
 		}
 		if len(condPanic) > 0 && r.Pct(50) {
 			q.Set("X-Cond-Panic", "1")
@@ -402,7 +404,8 @@ type reqLog struct {
 func (l *reqLog) add(e string) { l.mu.Lock(); l.events = append(l.events, e); l.mu.Unlock() }
 
 type dispEnv struct {
-	logs []*reqLog // one per request of the history, found through the X-Verif-Id header
+	logs []*reqLog          // one per request of the history, found through the X-Verif-Id header
+	c    *restful.Container // the container these requests are served by (scripts may call it)
 }
 
 func (e *dispEnv) logOf(r *http.Request) *reqLog {
@@ -413,7 +416,7 @@ func (e *dispEnv) logOf(r *http.Request) *reqLog {
 	return &reqLog{}
 }
 
-func runActions(l []Action, rq *restful.Request, rp *restful.Response, lg *reqLog) {
+func runActions(env *dispEnv, l []Action, rq *restful.Request, rp *restful.Response, lg *reqLog) {
 	for _, a := range l {
 		switch a.Kind {
 		case 0:
@@ -432,9 +435,22 @@ func runActions(l []Action, rq *restful.Request, rp *restful.Response, lg *reqLo
 			}
 			lg.add("see:" + a.A + "=" + v)
 		case 5:
-			if a.B != "" {
+			switch {
+			case a.B == "handle-dup" && env != nil && env.c != nil:
+				// the script registers a plain handler on a pattern that is taken: the mux panics inside
+				// Container.Handle; the panic leaves the script with the script's own value
+				func() {
+					defer func() {
+						if recover() != nil {
+							panicWith(a.A)
+						}
+					}()
+					env.c.Handle(dupPattern, http.NotFoundHandler())
+				}()
+				panicWith(a.A)
+			case a.B != "" && a.B != "handle-dup":
 				readPanickingEntity(rq, a.A, a.B == "entity-gzip") // panics from inside ReadEntity - if all is well
-			} else {
+			default:
 				panicWith(a.A)
 			}
 		case 6:
@@ -446,6 +462,9 @@ func runActions(l []Action, rq *restful.Request, rp *restful.Response, lg *reqLo
 		}
 	}
 }
+
+// a pattern every container of this domain has a plain handler on (no request ever asks for it)
+const dupPattern = "/zz-taken-pattern"
 
 // user code whose panic starts inside Request.ReadEntity: the handler gives the request a JSON body (gzip-encoded and
 // declared so, or plain) and reads it into a value whose UnmarshalJSON panics. For the framework this is a panic of
@@ -524,7 +543,12 @@ func runHTTPActions(l []Action, w http.ResponseWriter) {
 			n, _ := strconv.Atoi(a.A)
 			w.WriteHeader(n)
 		case 2:
-			w.Write([]byte(a.A))
+			if len(a.A)%3 == 1 {
+				// the same bytes streamed from a reader that hands over its last bytes together with io.EOF
+				io.Copy(w, iotest.DataErrReader(strings.NewReader(a.A)))
+			} else {
+				w.Write([]byte(a.A))
+			}
 		case 5:
 			panicWith(a.A)
 		case 6:
@@ -559,7 +583,7 @@ func mkFilter(f FScript, env *dispEnv) restful.FilterFunction {
 	return func(rq *restful.Request, rp *restful.Response, ch *restful.FilterChain) {
 		lg := env.logOf(rq.Request)
 		lg.add("pre:" + f.ID)
-		runActions(f.Pre, rq, rp, lg)
+		runActions(env, f.Pre, rq, rp, lg)
 		if f.Pass {
 			rq2, rp2 := rq, rp
 			if f.Fresh {
@@ -570,7 +594,7 @@ func mkFilter(f FScript, env *dispEnv) restful.FilterFunction {
 			}
 			ch.ProcessFilter(rq2, rp2)
 		}
-		runActions(f.Post, rq, rp, lg)
+		runActions(env, f.Post, rq, rp, lg)
 		lg.add("post:" + f.ID)
 	}
 }
@@ -579,6 +603,8 @@ func buildDisp(cfg Sx, env *dispEnv) *restful.Container {
 	t := tableFromSx(sxNth(cfg, 0))
 	c := restful.NewContainer()
 	setRouter(c, t.Router, len(t.Services)+len(sxList(sxNth(cfg, 1))))
+	env.c = c
+	c.Handle(dupPattern, http.NotFoundHandler())
 	// set-up order: container filters registered before everything else, or (odd number of them) after the services
 	// and handlers; an equivalent hand-written ServiceErrorHandler on every third configuration
 	cfs := fscriptsFromSx(sxNth(cfg, 1))
@@ -632,7 +658,7 @@ func buildDisp(cfg Sx, env *dispEnv) *restful.Container {
 			lg.events = append(lg.events, "recover:"+fmt.Sprint(reason))
 			lg.mu.Unlock()
 			rp := restful.NewResponse(w)
-			runActions(rscript, restful.NewRequest(&http.Request{Header: http.Header{}}), rp, lg)
+			runActions(env, rscript, restful.NewRequest(&http.Request{Header: http.Header{}}), rp, lg)
 		})
 	}
 	for _, ph := range sxList(sxNth(cfg, 11)) {
@@ -716,7 +742,7 @@ func buildDisp(cfg Sx, env *dispEnv) *restful.Container {
 				lg.add("saw:" + rq.SelectedRoutePath() + " " + strings.Join(ps, ";"))
 				// user code may write into the map it is handed; that must stay within this request (C19)
 				rq.PathParameters()["zz-left-behind"] = itoa(rs.ID)
-				runActions(hs[rs.ID], rq, rp, lg)
+				runActions(env, hs[rs.ID], rq, rp, lg)
 			})
 			ws.Route(b)
 		}
@@ -802,7 +828,9 @@ func serveOne(c *restful.Container, env *dispEnv, i int, h Sx) Sx {
 		w = goneWriter{rec}
 	}
 	panicMsg := Ls{}
-	func() {
+	done := make(chan struct{})
+	go func() {
+		defer close(done)
 		defer func() {
 			if r := recover(); r != nil {
 				panicMsg = L(A(fmt.Sprint(r)))
@@ -814,6 +842,13 @@ func serveOne(c *restful.Container, env *dispEnv, i int, h Sx) Sx {
 			c.ServeHTTP(w, hr)
 		}
 	}()
+	select {
+	case <-done:
+	case <-time.After(20 * time.Second):
+		// the request never came back (a lock left held by an earlier request): no further case in this process
+		poisoned = true
+		return L(L(A("request-blocked")), 0, Ls{}, A(""), 0, Ls{}, 0)
+	}
 	ce := rec.Header().Get("Content-Encoding")
 	body := rec.Body.Bytes()
 	ok := 1
